@@ -228,8 +228,66 @@ pub mod unit {
             std::mem::forget(a_task);
         }
 
+        // ------------------------------------------------------------------------------------
+        // Roles swapped: the main thread is the pipeline thread running mark_as_done(); the submitter's
+        // ready() future is polled ONCE at a solver-chosen synchronisation point inside mark_as_done
+        // (e.g. between storing the result and notify_waiters()), or not at all before it completes.
+        // ------------------------------------------------------------------------------------
+        static mut WAITER_RESULT: Option<u8> = None;
+        static mut WAITER_POLLS: u8 = 0;
+        static mut WAITER: Option<std::pin::Pin<Box<dyn Future<Output = u8>>>> = None;
+        fn submitter_polls_once() {
+            unsafe {
+                if IN_OTHER { return; }
+                let c = COUNTER;
+                COUNTER += 1;
+                if c != SWITCH_AT { return; }
+                IN_OTHER = true;
+                let saved = tokio::sched::HOOK.take();
+                if let Some(w) = (*std::ptr::addr_of_mut!(WAITER)).as_mut() {
+                    WAITER_POLLS += 1;
+                    if let Poll::Ready(v) = poll_once(w.as_mut()) { WAITER_RESULT = Some(v); }
+                }
+                RAN_INSIDE = true;
+                tokio::sched::HOOK = saved;
+                IN_OTHER = false;
+            }
+        }
+
+        #[cfg_attr(kani, kani::proof)]
+        #[cfg_attr(kani, kani::unwind(6))]
+        pub fn waiter_polled_inside_mark_as_done() {
+            let switch_at = sym::any_below(5);
+            let polled_before = sym::any_bool();
+            reset(switch_at);
+            let task: &'static Task<u8, u8> = Box::leak(Box::new(Task::new(1)));
+            unsafe {
+                WAITER_RESULT = None; WAITER_POLLS = 0;
+                WAITER = Some(Box::pin(task.ready()));
+                // the submitter may already be waiting (polled once, pending) before the pipeline finishes
+                if polled_before {
+                    let w = (*std::ptr::addr_of_mut!(WAITER)).as_mut().unwrap();
+                    if let Poll::Ready(v) = poll_once(w.as_mut()) { WAITER_RESULT = Some(v); }
+                }
+                tokio::sched::HOOK = Some(submitter_polls_once);
+            }
+            { let mut m = std::pin::pin!(task.mark_as_done(RESULT)); let r = poll_once(m.as_mut()); if r.is_pending() { let _ = poll_once(m.as_mut()); } }
+            unsafe { tokio::sched::HOOK = None; }
+            witness!(unsafe { RAN_INSIDE }, "witness: the submitter was polled inside mark_as_done");
+            // mark_as_done has completed: the submitter finishes within one more poll
+            unsafe {
+                if WAITER_RESULT.is_none() {
+                    let w = (*std::ptr::addr_of_mut!(WAITER)).as_mut().unwrap();
+                    if let Poll::Ready(v) = poll_once(w.as_mut()) { WAITER_RESULT = Some(v); }
+                }
+                vassert!(WAITER_RESULT == Some(RESULT), "C14.returns-interleaved: a submitter polled at any point inside mark_as_done still returns the marked result once mark_as_done has completed");
+                std::mem::forget((*std::ptr::addr_of_mut!(WAITER)).take());
+            }
+        }
+
         pub fn dispatch(name: &str) -> bool {
             match name {
+                "unit::proofs::waiter_polled_inside_mark_as_done" => waiter_polled_inside_mark_as_done(),
                 "unit::proofs::concurrent_track_of_same_operation" => concurrent_track_of_same_operation(),
                 "unit::proofs::ready_never_misses_done" => ready_never_misses_done(),
                 "unit::proofs::two_waiters_both_return" => two_waiters_both_return(),
